@@ -13,6 +13,7 @@ from bitcoin.core.serialize import (SerializationError, SerializationTruncationE
                                     VarIntSerializer, BytesSerializer)
 
 ID = 'C01'
+THREADSAFE = True      # cases touch no process-wide setting (no chain selection): the runner also runs them from several threads at once
 LEVEL = 'exploration'
 RULE = ('generated transactions (>=1 input, witness none/no-entries/all-empty/some; fields over the whole wire range with '
         'boundary bias; script and witness item lengths crossing 0xfd/0x10000), headers and blocks of 0..n such transactions, '
@@ -140,6 +141,13 @@ def check_tx(case):
             raise Violation(what + '/bytes', 'serialize() differs from the wire format at byte %d (lib %d bytes, ref %d): '
                             'lib ..%s ref ..%s' % (diff, len(r[1]), len(E), r[1][max(0, diff - 4):diff + 8].hex(),
                                                     E[max(0, diff - 4):diff + 8].hex()))
+        if len(E) < 4000 and (len(E) + case.get('pre', 0)) % 3 == 0:
+            # the script fields held as memoryview / bytearray / a bytes subclass (bytes sliced out of a received buffer and never
+            # wrapped in CScript): the same bytes on the wire
+            for knd, wrap in (('memoryview', lambda x: memoryview(bytes(x))), ('bytearray', bytearray), ('bytes-subclass', libx.UserBytes)):
+                o_ = libx.call(what + '/build-scripts-as-' + knd, libx.mk_tx, m, mutable, 'auto', wrap)[1]
+                if libx.call(what + '/serialize-scripts-as-' + knd, o_.serialize)[1] != E:
+                    raise Violation(what + '/scripts-as-' + knd, 'a transaction whose script fields are held as %s serialises differently' % knd)
         hasw = W.has_witness(m)
         if (E[4:6] == b'\x00\x01') != hasw:
             raise Violation(what + '/marker', 'marker/flag present=%s but non-empty witness=%s' % (E[4:6] == b'\x00\x01', hasw))
@@ -560,5 +568,5 @@ def t_fuzz(ctx):
     fuzzdrv.campaign(ctx, 'c01', seeds, runs=ctx.n(60000, 0), seconds=ctx.n(0, 240), max_len=600, label='wire-fuzz')
 
 
-TASKS = [('tx', (t_tx, 6)), ('tx_small', (t_small, 4)), ('header_block', (t_hdrblk, 4)), ('many', (t_many, 2)),
+TASKS = [('tx', (t_tx, 6)), ('tx_small', (t_small, 4)), ('header_block', (t_hdrblk, 4)), ('many', (t_many, 8)),
          ('fuzz', (t_fuzz, lambda tier: 2 if tier == 'quick' else 4))]
